@@ -13,6 +13,8 @@ ENGINES = [
      "kind_free_text": "header grammar x auth configuration grid through the real middleware chain with httptest"},
     {"name": "loaderfuzz", "path": "harness/yamlgen", "serves_properties": ["C13", "C19"],
      "kind_free_text": "grammar of DAG definitions with a per-field value hook (canaries, type confusion) + native fuzz targets on bytes"},
+    {"name": "procprobe", "path": "harness/tools/emit", "serves_properties": ["C11", "C12"],
+     "kind_free_text": "real child processes (emit helper / env -0 probes) run by the real scheduler, command executor and agent; observed through files"},
     {"name": "graphenum", "path": "harness/chk/c14", "serves_properties": ["C14"],
      "kind_free_text": "small-scope exhaustive digraph enumeration + random graphs with planted cycles; independent DFS oracle"},
 ]
@@ -92,6 +94,12 @@ META = {
         "technique": "property-based testing (rapid): recorded state vectors produced by running / stopping / cutting a generated original run, round-tripped through the real persistence encoding, retried on the scripted executor; set-equality oracle (executed set == must-rerun closure), C01 ordering oracle, bounded liveness",
         "level_text": "Generated search over DAG x original-run schedule x cut point (end / stop / k-th persisted status) x retry-time scripts and schedules; executed set compared with the must-rerun closure computed independently from the recorded vector.",
         "level_note": SIM_NOTE,
+    },
+    "C12": {
+        "engine": "procprobe", "design_ref": "DESIGN.md section 3 C12",
+        "technique": "property-based testing (rapid) + full configuration grid with real child processes emitting known byte patterns; containment oracle on the log / redirect files per stream alphabet; bounded liveness",
+        "level_text": "Generated search over writer configuration x retries x streams x sizes around every buffer boundary x chunking x done consumer, plus the enumerated grid; files compared with the pattern the child was told to emit.",
+        "level_note": "Trusted: tools/emit writes what pat.Bytes says (shared package); the OS pipe semantics. Exhaustive only for the listed grid.",
     },
 }
 
